@@ -697,12 +697,28 @@ def rule_t6(prog, rep, rid='T6'):
                    (qtype(o) or '').replace('const ', '').strip() in ('char', 'signed char') for o in ops):
                 signed_cmp = x
                 break
+    # ... and a result formed by squeezing a difference of unsigned (or wider-than-int) operands into int has the sign of
+    # the wrapped value, not of the order (`return (int)(w1 - w2)` for words that differ by 2^31 or more)
+    if signed_cmp is None:
+        for x in walk(f.body):
+            if x.get('kind') == 'ReturnStmt' and children(x):
+                e = strip(children(x)[0])
+                if e.get('kind') == 'BinaryOperator' and e.get('opcode') == '-':
+                    t = (dtype(e) or '')
+                    if 'unsigned' in t or t in ('long', 'long long', 'size_t', 'ssize_t'):
+                        signed_cmp = e
+                        break
     rep.instance(rid)
     rep.oblige(rid, signed_cmp is None, {'function': f.name, 'clause': 'key bytes are ordered as unsigned char'})
     if signed_cmp is not None:
-        rep.violation(rid, f, signed_cmp.get('_line'), 'signed-bytes',
-                      '%s orders key bytes through plain char (%s): bytes >= 0x80 sort before ASCII, unlike memcmp() - keys that differ '
-                      'at such a byte are ordered inconsistently' % (f.name, canon(signed_cmp)[:60]))
+        if signed_cmp.get('opcode') == '-' and 'unsigned' in (dtype(signed_cmp) or '') or (dtype(signed_cmp) or '') in ('long', 'long long', 'size_t', 'ssize_t'):
+            rep.violation(rid, f, signed_cmp.get('_line'), 'wrapped-difference',
+                          '%s returns the difference %s (type %s) converted to int: for operands that differ by 2^31 or more the sign is '
+                          'that of the wrapped value, not of the order' % (f.name, canon(signed_cmp)[:60], dtype(signed_cmp)))
+        else:
+            rep.violation(rid, f, signed_cmp.get('_line'), 'signed-bytes',
+                          '%s orders key bytes through plain char (%s): bytes >= 0x80 sort before ASCII, unlike memcmp() - keys that differ '
+                          'at such a byte are ordered inconsistently' % (f.name, canon(signed_cmp)[:60]))
         return
     pn = [p.get('name') for p in f.params]
     for (n1, n2) in ((1, 2), (2, 2), (3, 2)):
